@@ -15,6 +15,7 @@
 package main
 
 import (
+	"bytes"
 	"encoding/json"
 	"fmt"
 	"io"
@@ -23,8 +24,10 @@ import (
 	"math/big"
 	"os"
 	"path/filepath"
+	"runtime"
 	"strconv"
 	"strings"
+	"sync"
 	"unicode/utf8"
 
 	"shanhu.io/g/jsonx"
@@ -33,8 +36,9 @@ import (
 )
 
 type ctx struct {
-	rep *hx.Report
-	j   *hx.Journal
+	rep  *hx.Report
+	j    *hx.Journal
+	keep *jx.Keeper // earlier jsonx.Marshal results, re-verified after later calls
 }
 
 func isWsByte(b byte) bool { return b == ' ' || b == '\t' || b == '\n' || b == '\r' }
@@ -290,7 +294,9 @@ func (c *ctx) runOp(line string) string {
 		if len(line) > 4000 {
 			c.j.Risky(line)
 		}
-		_, out := jx.ImplMarshal(v)
+		x, out := jx.ImplMarshal(v)
+		c.keep.Check(line) // results handed out earlier must not change
+		c.keep.Add(line, x)
 		if kind, desc := roundTrip(v); kind != "" {
 			m := minimise(v)
 			k2, d2 := roundTrip(m)
@@ -304,8 +310,17 @@ func (c *ctx) runOp(line string) string {
 		if len(line) > 4000 {
 			c.j.Risky(line)
 		}
-		_, out := jx.ImplUnmarshal(arg())
+		in := arg()
+		raw, out := jx.ImplUnmarshal(in)
+		cp := append([]byte(nil), raw...)
+		jx.Scribble(in) // the input belongs to the caller again
+		if !bytes.Equal(raw, cp) {
+			c.rep.Fail("result-aliases-input", "what Unmarshal stored changed when the input buffer was overwritten", []string{line})
+		}
+		c.keep.Check(line)
 		return out
+	case "conc":
+		return c.concurrent(ws, line)
 	case "tojson":
 		if len(line) > 4000 {
 			c.j.Risky(line)
@@ -335,6 +350,62 @@ func (c *ctx) runOp(line string) string {
 		return n.String()
 	}
 	return "bad-op"
+}
+
+// concurrent: n goroutines marshal different values over and over; each keeps its
+// previous result and re-verifies it after its next call and checks that every
+// result decodes to its own value.
+func (c *ctx) concurrent(ws []string, line string) string {
+	if len(ws) < 3 {
+		return "bad-op"
+	}
+	n, err := strconv.Atoi(ws[1])
+	v, rest, ok := jx.ParseSpec(ws[2:])
+	if err != nil || n < 1 || n > 8 || !ok || len(rest) != 0 {
+		return "bad-op"
+	}
+	fails := make([]string, n)
+	var wg sync.WaitGroup
+	for i := 0; i < n; i++ {
+		wg.Add(1)
+		go func(i int) {
+			defer wg.Done()
+			var prev, prevCopy []byte
+			for it := 0; it < 60; it++ {
+				val := []interface{}{json.Number(strconv.Itoa(i*100000 + it)), v}
+				want, _ := json.Marshal(val)
+				x, err := jsonx.Marshal(val)
+				if err != nil {
+					fails[i] = "Marshal failed: " + err.Error()
+					return
+				}
+				cp := append([]byte(nil), x...)
+				runtime.Gosched()
+				if prev != nil && !bytes.Equal(prev, prevCopy) {
+					fails[i] = fmt.Sprintf("goroutine %d: the bytes of its previous Marshal result changed: were %.60q, now %.60q", i, prevCopy, prev)
+					return
+				}
+				var raw json.RawMessage
+				if err := jsonx.Unmarshal(x, &raw); err != nil {
+					fails[i] = fmt.Sprintf("goroutine %d: Unmarshal rejects its own Marshal result %.60q: %v", i, x, err)
+					return
+				}
+				if ok, _ := jx.EqualText(raw, want); !ok {
+					fails[i] = fmt.Sprintf("goroutine %d: its Marshal result decodes to %.60s, want %.60s", i, raw, want)
+					return
+				}
+				prev, prevCopy = x, cp
+			}
+		}(i)
+	}
+	wg.Wait()
+	for _, f := range fails {
+		if f != "" {
+			c.rep.Fail("result-aliased-by-later-call:concurrent", f, []string{line})
+			return "aliased"
+		}
+	}
+	return "held"
 }
 
 // ---- generation
@@ -446,6 +517,7 @@ func main() {
 		"empty and deep containers) with the round-trip oracle, unm <printer output>, and contract ops for strconv/encoding/json " +
 		"leaves and the RFC 8259 predicates; distinct = distinct op line; non-trivial = every op"
 	c := &ctx{rep: rep, j: hx.NewJournal(f.Work)}
+	c.keep = &jx.Keeper{What: "jsonx.Marshal", Fail: rep.Fail}
 
 	var ops []string
 	if f.Replay != "" {
@@ -532,6 +604,17 @@ func main() {
 			g.value(g.g.Deep(d))
 			rep.Count("val:deep")
 		}
+		// result isolation under concurrency
+		nconc := 6
+		if f.Thorough() {
+			nconc = 60
+		}
+		for i := 0; i < nconc; i++ {
+			if sp := specOf(g.g.Value(2)); sp != "" && len(sp) < 4000 {
+				g.add(fmt.Sprintf("conc %d %s", 2+g.r.Intn(3), sp))
+				rep.Count("isolation:concurrent")
+			}
+		}
 		// contracts of the delegated leaves, RFC predicates
 		for i := 0; i < ncontract; i++ {
 			switch g.r.Intn(7) {
@@ -581,13 +664,22 @@ func main() {
 	}
 	c.j.Clear()
 
-	model, err := hx.RunDriver(f.Driver, nil, ops)
+	// oracle-only ops (conc) have no model answer
+	var mops []string
+	var midx []int
+	for i, op := range ops {
+		if !strings.HasPrefix(op, "conc ") {
+			mops = append(mops, op)
+			midx = append(midx, i)
+		}
+	}
+	model, err := hx.RunDriver(f.Driver, nil, mops)
 	if err != nil {
 		rep.Note("driver failed: %v", err)
 		rep.ModelAvailable = false
 	} else if model != nil {
-		for i := range ops {
-			m, lp := jx.ModelLine(ops[i], model[i])
+		for k, i := range midx {
+			m, lp := jx.ModelLine(ops[i], model[k])
 			if lp != nil {
 				rep.Disagree("leaf-contract:"+lp.Kind, ops[i], impl[i], "the model accepted a literal that strconv rejects: "+lp.Lit)
 				continue
@@ -596,7 +688,7 @@ func main() {
 				rep.Disagree(strings.Fields(ops[i])[0], ops[i], impl[i], m)
 			}
 		}
-		rep.TracesValidated = len(ops)
+		rep.TracesValidated = len(mops)
 	}
 	for i := 0; i < len(ops) && len(rep.Samples) < 12; i += 1 + len(ops)/12 {
 		s := ops[i]
